@@ -1,8 +1,24 @@
 //! Verification hooks (feature `verif-hooks`). Additive only: nothing here is
 //! compiled, and no behaviour changes, unless the feature is enabled.
 use crate::story::Story;
+use std::cell::Cell;
+
+thread_local! {
+    static CONSTRUCTION_FUEL: Cell<Option<u64>> = const { Cell::new(None) };
+}
+
+/// Fuel a story starts with (see `Story::verif_set_construction_fuel`).
+pub(crate) fn construction_fuel() -> Option<u64> {
+    CONSTRUCTION_FUEL.with(|f| f.get())
+}
 
 impl Story {
+    /// Fuel given to every story constructed on this thread from now on, so that the
+    /// global declarations run by `Story::new` are bounded too.
+    pub fn verif_set_construction_fuel(fuel: Option<u64>) {
+        CONSTRUCTION_FUEL.with(|f| f.set(fuel));
+    }
+
     /// Bound the number of interpreter steps all later continues may take in
     /// total. When the fuel runs out the running continue ends with the
     /// ordinary error path and the message `VERIF_FUEL`.
